@@ -12,6 +12,7 @@ struct Raw {
     pos: usize,
     segs: std::collections::VecDeque<usize>,
     pulled: Arc<AtomicUsize>,
+    starved: Arc<AtomicBool>,
 }
 impl Read for Raw {
     fn read(&mut self, buf: &mut [u8]) -> std::io::Result<usize> {
@@ -20,6 +21,7 @@ impl Read for Raw {
         }
         let left = self.data.len() - self.pos;
         if left == 0 {
+            self.starved.store(true, Ordering::SeqCst); // the reader ran into the end of the stream
             return Ok(0);
         }
         let g = match self.segs.front() {
@@ -62,7 +64,8 @@ pub fn body(arg: &str) -> String {
         if w == "ek=1" { ek = true }
     }
     let pulled = Arc::new(AtomicUsize::new(0));
-    let raw = Raw { data: st, pos: 0, segs: segs.into_iter().collect(), pulled: Arc::clone(&pulled) };
+    let starved = Arc::new(AtomicBool::new(false));
+    let raw = Raw { data: st, pos: 0, segs: segs.into_iter().collect(), pulled: Arc::clone(&pulled), starved: Arc::clone(&starved) };
     let flag = AtomicBool::new(false);
     let reader = if let Some(n) = kind.strip_prefix("fixed:") {
         let n: usize = n.parse().unwrap_or(0);
@@ -128,5 +131,12 @@ pub fn body(arg: &str) -> String {
     if api == "drain" {
         outcome = if fail { "ERR".into() } else { "END".into() };
     }
-    format!("DATA {} {} pulled={} fail={}", hex(&out), outcome, pulled.load(Ordering::SeqCst), fail as u8)
+    format!(
+        "DATA {} {} pulled={} fail={} starved={}",
+        hex(&out),
+        outcome,
+        pulled.load(Ordering::SeqCst),
+        fail as u8,
+        starved.load(Ordering::SeqCst) as u8
+    )
 }
